@@ -20,7 +20,7 @@
 //!   {"k":"est","id":n,"hex":"..."} | {"k":"est","id":n,"new":true}
 //!        -> {"k":"est","id":n,"imp":"ok|err|panic","res":"ok|panic|none","est":"dec","rt_ok":b,"msg":..}
 //!   {"k":"extremes","id":n,"bg":b}                   for v in 0..=255: register i = v (each i), others = b
-//!        -> 256 x {"k":"row","bg":b,"v":v,"ok":n,"panic":n,"imperr":n,"rt_bad":n,"est_min":"dec","est_max":"dec",
+//!        -> 256 x {"k":"row","bg":b,"v":v,"ok":n,"panic":n,"imperr":n,"rt_bad":n,"sat":n,"est_min":"dec","est_max":"dec",
 //!                  "first_bad":i,"msg":..}
 //!   {"k":"acc","id":n,"seed":s,"n":card,"off":o,"reps":r}   card distinct uniformly random 32-byte elements,
 //!        each added r times in shuffled order -> {"k":"acc","id":n,"n":card,"res":..,"est":"dec","maxreg":m,"hex":..}
@@ -203,7 +203,7 @@ fn run_est(c: &Value) -> Value {
 fn run_extremes(c: &Value, out: &mut dyn Write) {
     let bg = c["bg"].as_u64().expect("bg") as u8;
     for v in 0..=255u8 {
-        let (mut ok, mut pn, mut ie, mut rtb) = (0u32, 0u32, 0u32, 0u32);
+        let (mut ok, mut pn, mut ie, mut rtb, mut sat) = (0u32, 0u32, 0u32, 0u32, 0u32);
         let (mut emin, mut emax): (Option<u128>, Option<u128>) = (None, None);
         let mut first_bad: i64 = -1;
         let mut msg = String::new();
@@ -223,6 +223,11 @@ fn run_extremes(c: &Value, out: &mut dyn Write) {
                 if res == "ok" {
                     ok += 1;
                     let e: u128 = est.parse().unwrap_or(u128::MAX);
+                    if e >= (1u128 << 53) {
+                        // the saturated cast of a non-finite floating point estimate
+                        sat += 1;
+                        bad = true;
+                    }
                     emin = Some(emin.map_or(e, |x| x.min(e)));
                     emax = Some(emax.map_or(e, |x| x.max(e)));
                 } else {
@@ -232,10 +237,10 @@ fn run_extremes(c: &Value, out: &mut dyn Write) {
             }
             if bad && first_bad < 0 {
                 first_bad = i as i64;
-                msg = format!("import={} estimate={} rt_ok={} {}", imp, res, rt_ok, m);
+                msg = format!("import={} estimate={} {} rt_ok={} {}", imp, res, est, rt_ok, m);
             }
         }
-        writeln!(out, "{}", json!({"k": "row", "id": c["id"], "bg": bg, "v": v, "ok": ok, "panic": pn, "imperr": ie, "rt_bad": rtb,
+        writeln!(out, "{}", json!({"k": "row", "id": c["id"], "bg": bg, "v": v, "ok": ok, "panic": pn, "imperr": ie, "rt_bad": rtb, "sat": sat,
             "est_min": emin.map(|x| x.to_string()).unwrap_or_default(),
             "est_max": emax.map(|x| x.to_string()).unwrap_or_default(),
             "first_bad": first_bad, "msg": msg})).unwrap();
